@@ -194,6 +194,8 @@ def run(chk):
     worst = 0.0
     for i in range(200 if thorough else 40):
         case, L0, fmin = wells_case(rng) if i % 5 == 4 else cone_case(rng)
+        if i in (4, 9, 14):      # always some batch-driven runs on the late-growth objectives
+            case.update({'mode': 'batches', 'batch': (40, 50, 16)[i // 5]})
         res = O.guarded(lambda c: [evaluate(c, L0, fmin)], case)
         st, info = res[0] if isinstance(res[0], tuple) else ('violation', res[0])
         chk.evaluations += 1
@@ -215,6 +217,12 @@ def run(chk):
     for i in range(60 if thorough else 14):
         if i % 2 == 0:
             case, lip0 = flat_case(rng)
+            if i == 0:      # always one long flat run driven by a plain Solve (thousands of intervals, M at its floor, no refill of the queue)
+                side = case['hi'][0] - case['lo'][0]
+                for key in ('mode', 'fail_at', 'exc', 'batch'):
+                    case.pop(key, None)
+                case.update({'eps': 5e-5, 'r': 2.2, 'objective': {'kind': 'cones', 'centers': [[case['lo'][0] + 0.5 * side]], 'slopes': [0.001 / side], 'offsets': [0.0]}})
+                lip0 = 0.001 / side
         else:
             case, lip0, _ = cone_case(rng)
             if case['n'] != 1:
